@@ -9,4 +9,4 @@ print("| seeded change | breaks | needs | caught by (quick checks) | before stre
 print("|---|---|---|---|---|")
 for m in rows:
     before = m.get("caught_before_strengthening")
-    print(f"| `{m['name']}` | {m['breaks_property']} | {m['needs_to_manifest']} | {', '.join(m['caught_by_quick_checks']) or '**none**'} | {', '.join(before) if before is not None else 'same'} |")
+    print(f"| `{m['name']}` | {m['breaks_property']} | {m['needs_to_manifest']} | {', '.join(m['caught_by_quick_checks']) or '**none**'} | {(', '.join(before) or '**none**') if before is not None else 'same'} |")
